@@ -585,7 +585,7 @@ class Arc(Term):
         s = self.start
         e = self.end
         r = e - s
-        c = s + r
+        c = e
         left = s > e
         right = s < e
         y = (
@@ -621,7 +621,7 @@ class Arc(Term):
         s = self.start
         e = self.end
         r = e - s
-        c = s + r
+        c = e
         sign = -1 if s < e else 1
         x = c + sign * np.sqrt(r**2 - np.square(y * r / h))
         return x  # type: ignore
